@@ -100,6 +100,8 @@ pub fn probe_trace(tag: u8) -> Vec<Packet> {
         schedule: vec![],
         link: Link::Ether,
         macs: 0,
+        wire: 0,
+        frag: 0,
     };
     // connection after connection (no interleaving needed for a probe)
     t.per_conn().into_iter().flatten().collect()
